@@ -16,7 +16,9 @@ RULE = ("Hypothesis draws a convergence precision p in {None, 0..12}, verbose on
         "script of losses concentrated around 0.5*10^-p (0.49x, 0.51x, exactly, 0, tiny negatives) plus ordinary values, and "
         "1-4 calibrate(n) calls (n 1-5). Reference model: exact-rational rounding of the running minimum. Oracles: number of "
         "batches executed per call, counters, history length, restored checkpoint == returned state, verbose-independence. "
-        "Non-trivial = a stop strictly before the requested n, or a later call on a converged calibrator.")
+        "Non-trivial = a stop strictly before the requested n, or a later call on a converged calibrator. Sub-check "
+        "'after_failed_batch': a user-defined scheduler whose update() raises once; the later calibrate() calls on the same "
+        "object must follow the same rule over the recorded losses.")
 ASSUMPTIONS = ["|min| within a relative hair (1e-12) of 0.5*10^-p may be decided either way (decimal rounding of a binary float)",
                "losses are scripted through a stub loss object so every float can be placed at the boundary"]
 SHARDS = {"quick": 8, "thorough": 16}
@@ -144,8 +146,72 @@ def check_stop(ctx: Ctx, case):
             shutil.rmtree(folder, ignore_errors=True)
 
 
-SUBCHECKS = {"early_stop": check_stop}
+# ---- later calls after a batch that failed in user code ----------------------------------------------------------------
+@st.composite
+def after_fault_cases(draw):
+    c = draw(cases())
+    c["p"] = draw(st.integers(0, 6))
+    c["folder"], c["restore_before"] = False, []
+    c["fail_at"] = draw(st.integers(0, 3))
+    c["calls"] = [draw(st.integers(1, 4))] + draw(st.lists(st.integers(1, 5), min_size=1, max_size=3))
+    return c
+
+
+def check_after_fault(ctx: Ctx, case):
+    """A user-defined scheduler whose update() raises once (the caller catches it and carries on with the same object): in
+    every later call the stopping rule applies to what the history holds."""
+    from harness.stubs import UpdateFault, failing_update_scheduler
+
+    sub = "after_failed_batch"
+    p, bs, script = case["p"], case["bs"], case["script"]
+    cfg = {"space": gen.UNIT, "lineup": [{"kind": "uniform", "bs": bs, "seed": 0}], "loss": None, "model": "poly", "D": 1,
+           "N": 4, "E": 1, "seed": case["seed"], "real": "zeros"}
+    loss = ScriptedLoss(script)
+    with guard(ctx, "C14/exception", sub, case):
+        sch = failing_update_scheduler(calib.make_samplers(cfg), case["fail_at"])
+        cal = calib.build(cfg, loss=loss, scheduler=sch, verbose=case["verbose"], convergence_precision=p)
+    faulted = False
+    classes = []
+    for ci, n in enumerate(case["calls"]):
+        hist = [float(x) for x in cal.losses_samp]
+        k = loss.k
+        exp, amb = 0, False
+        running = min(hist) if hist else None
+        for _ in range(n):
+            vals = [script[(k + i) % len(script)] for i in range(bs)]
+            k += bs
+            exp += 1
+            running = min(vals) if running is None else min(running, min(vals))
+            v = verdict(running, p)
+            amb = amb or v == "either"
+            if v == "stop" or (not faulted and sch.calls + exp - 1 == case["fail_at"]):
+                break
+        if amb:
+            ctx.exclude("running minimum within 1e-12 (relative) of the rounding boundary")
+            break
+        rows0 = len(cal.losses_samp)
+        try:
+            with guard(ctx, "C14/exception", sub, case, allow=(UpdateFault,)):
+                cal.calibrate(n)
+        except UpdateFault:
+            faulted = True
+            classes.append("fault-hit")
+            continue
+        got = (len(cal.losses_samp) - rows0) // bs
+        if faulted:
+            classes.append("call-after-fault")
+        if got != exp:
+            ctx.count(sub, case, faulted, classes)
+            ctx.fail("C14/no-stop" if got > exp else "C14/early-stop", f"p={p}: call {ci} = calibrate({n}) "
+                     f"{'after a batch that failed in the scheduler update ' if faulted else ''}executed {got} batches, the rounding "
+                     f"rule applied to the recorded losses prescribes {exp}", sub, case)
+            return
+    ctx.count(sub, case, faulted and "call-after-fault" in classes, sorted(set(classes)))
+
+
+SUBCHECKS = {"early_stop": check_stop, "after_failed_batch": check_after_fault}
 
 
 def run(ctx: Ctx):
     drive(ctx, "early_stop", cases(), check_stop, ctx.n(4000, 40000))
+    drive(ctx, "after_failed_batch", after_fault_cases(), check_after_fault, ctx.n(1200, 12000))
